@@ -414,19 +414,26 @@ def r5(repo, chk):
         raise AnalysisError(f"C08-R5: only {Sub.n} flight-space obligations were generated")
     ds = Fn(repo, CONN + "datagrams_to_send")
     mf = [(st, t, v) for st, t, v in ds.assigns(suffix="max_flight_bytes")]
+    # the budget may be computed in a local first and installed once: then the local's assignments are the ones judged
+    via = None
+    if len(mf) == 1 and isinstance(mf[0][2], ast.Name) and ds.assigns(chain=mf[0][2].id):
+        via = mf[0][2].id
+        install = mf[0][0]
+        mf = [(st, t, v) for st, t, v in ds.assigns(chain=via)]
     base = [x for x in mf if norm(x[2]) == "self._loss.congestion_window - self._loss.bytes_in_flight"]
     chk.ob("R5", "datagrams_to_send sets max_flight_bytes = congestion_window - bytes_in_flight", len(base) == 1, f"{[norm(x[2]) for x in mf]}", ds.loc(ds.node))
     writers = [c for c in ds.calls() if call_name(c) in ("self._write_handshake", "self._write_application")]
     if len(writers) < 2:
         raise AnalysisError("datagrams_to_send: _write_handshake/_write_application calls not found")
     for st, t, v in base:
-        chk.ob("R5", "the congestion budget is installed before any packet writer runs", all(ds.before(st, w) for w in writers), "", ds.loc(st))
+        inst = install if via else st
+        chk.ob("R5", "the congestion budget is installed before any packet writer runs", all(ds.before(inst, w) for w in writers) and (not via or all(x[0].lineno < install.lineno for x in mf)), "", ds.loc(st))
     for st, t, v in mf:
         if (st, t, v) in base:
             continue
         lg = ds.lexical_guards(st, expand=False)
         mine = [a for a in lg if a not in ds.lexical_guards(base[0][0], expand=False)] if base else lg
-        ok = norm(v) == "self._max_datagram_size" and ("self._probe_pending", True) in mine and any("max_flight_bytes" in a[0] and "self._max_datagram_size" in a[0] for a in mine) and len(mine) == 2
+        ok = norm(v) == "self._max_datagram_size" and ("self._probe_pending", True) in mine and any(((via or "max_flight_bytes") in a[0]) and "self._max_datagram_size" in a[0] for a in mine) and len(mine) == 2
         chk.ob("R5", f"`{norm(st)[:60]}` raises the budget to one datagram only for a pending probe", ok, f"guards {mine}", ds.loc(st))
     # the probe flag: set by _send_probe only; cleared in the writers before bulk data
     setters = []
